@@ -120,6 +120,21 @@ def doCommitLoose (ds : DS) (root : Hash) (failAt : Option Nat) (obs : List (Lis
   let cache' := if failAt.isSome then ds.st.cache else uncache ds.st.cache obs.flatten
   ({ st := ⟨cache', disk'⟩, prevDisk := ds.st.disk, lastCache := ds.st.cache, lastBatches := obs }, "unmodelled")
 
+/-- Go randomises map iteration per `range` statement, so a node that the walk
+    visits twice (an identical subtree under two parents) may see its external
+    children in two different orders within one commit.  The model keeps one
+    order per node.  The driver detects that situation (the order search found
+    two different orders for one node) and only then falls back like `commit?`. -/
+def orderConflict (c : Cache) (root : Hash) (observed : List Hash) (trunc : Bool) : Bool :=
+  match matchWalk c root ⟨observed, trunc, []⟩ with
+  | none => false
+  | some ms => ms.ord.any fun a => ms.ord.any fun b => a.1 == b.1 && a.2 != b.2
+
+def doCommitStrict (ds : DS) (root : Hash) (failAt : Option Nat) (obs : List (List Hash)) (refused : List Hash) : DS × String :=
+  if orderConflict ds.st.cache root (obs.flatten ++ refused) failAt.isSome then
+    doCommitLoose ds root failAt obs refused
+  else doCommit ds root failAt (obs.flatten ++ refused) failAt.isSome
+
 def lineStep (ds : DS) (line : String) : DS × String :=
   match splitWords line with
   | ["reset"] => (DS.init, "ok")
@@ -141,11 +156,11 @@ def lineStep (ds : DS) (line : String) : DS × String :=
     | _, _ => (ds, "bad-op")
   | ["commit", root, obs] =>
     match hashOf? root, batches? obs with
-    | some r, some bs => doCommit ds r none bs.flatten false
+    | some r, some bs => doCommitStrict ds r none bs []
     | _, _ => (ds, "bad-op")
   | ["fail", root, k, obs, refused] =>
     match hashOf? root, k.toNat?, batches? obs, hashList? refused with
-    | some r, some k, some bs, some rf => doCommit ds r (some k) (bs.flatten ++ rf) true
+    | some r, some k, some bs, some rf => doCommitStrict ds r (some k) bs rf
     | _, _, _, _ => (ds, "bad-op")
   | ["commit?", root, obs] =>
     match hashOf? root, batches? obs with
